@@ -13,6 +13,7 @@ mod cases_bfv;
 mod cases_rank;
 mod cases_lenders;
 mod cases_vfilter;
+mod cases_select;
 mod cases_ef;
 mod cases_rcl;
 mod cases_atomic;
@@ -83,9 +84,10 @@ fn main() {
 fn dispatch(case: &str, ctx: &mut Ctx, one: Option<&str>, rng: &mut Rng, budget: usize) {
     match case {
         "bitvec_iter_ones" | "bitvec_iter_zeros" | "bitvec_ops" | "bitvec_stale" => cases_bitvec::run(case, ctx, one, rng, budget),
-        "ef_seq" | "ef_dict" | "ef_builder" => cases_ef::run(case, ctx, one, rng, budget),
+        "ef_seq" | "ef_dict" | "ef_builder" | "ef_big" => cases_ef::run(case, ctx, one, rng, budget),
         "atomic" => cases_atomic::run(case, ctx, one, rng, budget),
         "rcl" => cases_rcl::run(case, ctx, one, rng, budget),
+        "select_all" => cases_select::run(case, ctx, one, rng, budget),
         "vfilter" => cases_vfilter::run(case, ctx, one, rng, budget),
         "lenders" | "lenders_take" => cases_lenders::run(case, ctx, one, rng, budget),
         "rank9" | "rank_all" => cases_rank::run(case, ctx, one, rng, budget),
